@@ -40,8 +40,8 @@ def oldel(ex, st, lst, i):
     if old is None:
         raise Unsupported("oldel outside two-state clause")
     ek = ex.elem_kind(lst)
-    arr = ex.H.el_arr(old, ek.sort())[lst.term]
-    return ex.from_term(ek, arr[ops.to_int_term(i)])
+    arr = ex.sel(old, ex.H.el_arr(old, ek.sort()), lst.term)
+    return ex.from_term(ek, ex.sel(old, arr, ops.to_int_term(i)))
 
 
 @specfunc("oldlen")
@@ -49,7 +49,7 @@ def oldlen(ex, st, lst):
     old = st.ghost.get("__old__")
     if old is None:
         raise Unsupported("oldlen outside two-state clause")
-    return V(INT, ex.H.len_arr(old)[lst.term])
+    return V(INT, ex.sel(old, ex.H.len_arr(old), lst.term))
 
 
 @specfunc("trunc")
